@@ -308,6 +308,16 @@ class Evaluator:
                 return n, T.substitute(it[2][2], {T.bv(it[2][1]): e})
         if it[0] == 'range' and it[2] != ('inf',) and T.is_lin(it[1]) and T.is_lin(it[2]):
             return T.sub(it[2], it[1]), T.add(it[1], k)
+        if it[0] == 'once' and len(it) == 2:
+            return T.const(1), it[1]
+        if it[0] == 'chain' and len(it) == 3:
+            # the k-th item of a.chain(b): a_k below len(a), b_(k - len(a)) from there on
+            sa, sb = self.indexed(T.unroot(it[1])), self.indexed(T.unroot(it[2]))
+            if sa is not None and sb is not None and self.numericish(sa[1]) and self.numericish(sb[1]):
+                na, ea = sa
+                nb, eb = sb
+                eb = T.substitute(eb, {T.bv(d): T.sub(k, na)})
+                return T.add(na, nb), T.ite(T.cmp('Lt', k, na), ea, eb)
         if it[0] in ('map', 'filter', 'take_while', 'take', 'dedup', 'sorted'):
             # a collection that was materialised from a finite pipeline (e.g. the delta-min vector of a converted curve)
             from .rules_total import finiteness
@@ -1922,6 +1932,13 @@ class Evaluator:
                 if name == 'zip' and b2[0] == 'map' and b2[1] == a and b2[2][0] == 'lam':
                     d = b2[2][1]
                     return ('map', a, ('lam', d, T.tup(T.bv(d), b2[2][2])))
+                if name == 'chain' and a[0] == 'once' and b2[0] == 'map' and isinstance(b2[1], tuple) and b2[1] and b2[1][0] == 'range':
+                    # a first item put in front of a sequence that is already written by index (e.g. the differences of the
+                    # windows of a slice): written by index as a whole
+                    ix = self.indexed(('chain', a, b2))
+                    if ix is not None:
+                        d = self.bvd
+                        return ('map', ('range', T.const(0), ix[0]), ('lam', d, ix[1]))
                 return (name, a, b2)
             if name == 'tee':
                 it = self.as_iter(a0)
